@@ -18,7 +18,8 @@ RULE = ("random removal-enabled temporal graphs of both classes (3-6 nodes, <= 7
 MIN = {"quick": {"path:genuine": 20000, "key": 5000},
        "thorough": {"path:genuine": 400000, "key": 100000}}
 REQUIRED_CELLS = {t: ("class:DynGraph", "class:DynDiGraph", "ids:int", "ids:str", "v:None", "v:node", "v:u",
-                      "window:inside", "window:default", "sample<1", "all_time_respecting_paths")
+                      "window:inside", "window:default", "sample<1", "all_time_respecting_paths",
+                      "motif:closed-walk+idle+departure", "second-life", "long-timeline")
                   for t in ("quick", "thorough")}
 
 
@@ -112,9 +113,26 @@ def run(ctx, dn):
     k = 0
     while ctx.time_left() > 1:
         strings = rng.random() < 0.4
-        G, m, nodes, pres = _paths.random_temporal_graph(rng, dn, strings=strings)
-        ctx.case = dict(workload="RND-GRAPHS", directed=m.directed, presence=pres)
+        if k % 6 == 3:
+            G, m, nodes, pres = _paths.motif_graph(rng, dn, strings=strings)
+            ctx.cell("motif:closed-walk+idle+departure")
+            ctx.case = dict(workload="MOTIF", directed=m.directed, presence=pres)
+        else:
+            G, m, nodes, pres = _paths.random_temporal_graph(rng, dn, strings=strings)
+            ctx.case = dict(workload="RND-GRAPHS", directed=m.directed, presence=pres)
         one_graph(ctx, dn, G, m, nodes, strings)
+        if k % 9 == 4:
+            G, m, nodes, pres = _paths.long_pair_graph(rng, dn, strings=strings)
+            ctx.case = dict(workload="LONG-PAIR", directed=m.directed, presence=pres)
+            ctx.cell("long-timeline")
+            one_graph(ctx, dn, G, m, nodes, strings)
+        if k % 5 == 1:
+            # second life: queried, emptied, refilled unobserved to the same number of snapshot ids, queried again
+            m2 = _paths.refill_after_clear(rng, dn, G, m)
+            ctx.case = dict(workload="SECOND-LIFE", directed=m.directed, first_life=pres,
+                            presence={repr(kk): sorted(v) for kk, v in m2.P.items()})
+            ctx.cell("second-life")
+            one_graph(ctx, dn, G, m2, [n for n in nodes if n in m2.nodes] or list(m2.nodes), strings)
         if k < 3:
             ctx.sample(ctx.case)
         k += 1
